@@ -1,3 +1,4 @@
+import inspect
 import numpy
 from sklearn.base import BaseEstimator, RegressorMixin, MultiOutputMixin
 from sklearn.decomposition import NMF, TruncatedSVD
@@ -46,6 +47,12 @@ class ApproximateNMFPredictor(BaseEstimator, RegressorMixin, MultiOutputMixin):
         BaseEstimator.__init__(self)
         RegressorMixin.__init__(self)
         MultiOutputMixin.__init__(self)
+        # every NMF parameter is stored (with its default value) so that
+        # get_params, set_params and clone see the same keys for every instance
+        sig = inspect.signature(NMF.__init__)
+        for k, p in sig.parameters.items():
+            if k != "self" and k not in kwargs:
+                setattr(self, k, p.default)
         for k, v in kwargs.items():
             setattr(self, k, v)
         self.force_positive = force_positive
